@@ -61,7 +61,15 @@ func (h *Handler) Provision(ctx caddy.Context) error {
 		allowCIDR = repl.ReplaceAll(allowCIDR, "")
 		_, n, err := net.ParseCIDR(allowCIDR)
 		if err != nil {
-			return fmt.Errorf("invalid subnet '%s': %w", allowCIDR, err)
+			// a single address (the private_ranges shortcut contains "::1") is the range of that address alone
+			ip := net.ParseIP(allowCIDR)
+			if ip == nil {
+				return fmt.Errorf("invalid subnet '%s': %w", allowCIDR, err)
+			}
+			if ip4 := ip.To4(); ip4 != nil {
+				ip = ip4
+			}
+			n = &net.IPNet{IP: ip, Mask: net.CIDRMask(len(ip)*8, len(ip)*8)}
 		}
 		h.rules = append(h.rules, proxyprotocol.Rule{Timeout: time.Duration(h.Timeout), Subnet: n})
 	}
